@@ -306,7 +306,12 @@ func propG(c GCase) error {
 		if sg, err := model.Build(g.Mapped(func(x float64) float64 { return 2*x + 1 }), model.RouteFlat); err == nil {
 			if sb, err := geojson.Marshal(sg); err == nil {
 				for i := 0; i < 2; i++ {
+					// (the first time into a variable that still holds the earlier result, as a
+					// loop with one variable does: the variable is replaced, not what it held)
 					var og geom.T
+					if i == 0 {
+						og = back
+					}
 					_ = geojson.Unmarshal(sb, &og)
 				}
 			}
